@@ -252,20 +252,11 @@ def classes_norm(cl):
 
 def token_domain(tree, kind="dfxp"):
     """span counts / open_span are compared only when
-       - no STYLE node of the set carries a class / classes key (DFXP looks those up in the document's style table,
-         which the model does not reproduce), and
-       - SAMI: the first language has a caption (otherwise SAMIWriter never attaches the <sync> elements of the other
-         languages to the document - their text, spans included, is not in the output; not a C09 matter)"""
+       no STYLE node of the set carries a class / classes key (DFXP looks those up in the document's style table,
+       which the model does not reproduce)"""
     s = json.dumps(tree)
     if '"s:class"' in s or '"s:classes"' in s:
         return False
-    if kind == "sami":
-        try:
-            langs = dict((c[0], c[1]) for c in tree[1])[1][1]
-            if langs and not any(c[0] is None for c in langs[0][1][1]):
-                return False
-        except Exception:  # noqa
-            return False
     return True
 
 
@@ -284,8 +275,13 @@ def compare(history, obs, steps, pristine):
         if k == "edit":
             trees[op["set"]] = o.get("tree")
 
-        def dis(what, **kw):
-            d = {"i": i, "op": k, "what": what}
+        def dis(what, detail=None, **kw):
+            # detail = None : the observation is the PROPERTY seen at a finer grain (input assigned, sets sharing
+            #                 objects, snapshots) - a mismatch breaks the tie
+            # detail = tag  : incidental detail of the effect summary (what the writer does INSIDE its own private
+            #                 copy, which exception it raises, how it renders spans, what a reader object keeps) - a
+            #                 mismatch is counted in the evidence under that tag and does not break the tie
+            d = {"i": i, "op": k, "what": what, "detail": detail}
             d.update(kw)
             out.append(d)
         # the whole observable heap after the op
@@ -308,13 +304,13 @@ def compare(history, obs, steps, pristine):
                     mc = classes_norm(KIND_CLASS.get(x, str(x)) for x in m["share"][j])
                     rc = classes_norm(o["share"][j])
                     if mc != rc:
-                        dis("classes of the objects shared with set %s" % j, model=mc, impl=rc)
+                        dis("classes of the objects shared with set %s" % j, detail="shared-classes", model=mc, impl=rc)
             mg = classes_norm(KIND_CLASS.get(x, str(x)) for x in m["glob"])
             if mg != classes_norm(o["glob"]):
                 dis("objects shared with process-global state (default arguments, module constants)",
                     model=mg, impl=classes_norm(o["glob"]))
             if k == "read" and m["rinst"] != bool(o["rinst"]):
-                dis("whether the reader object keeps a reference into the returned set", model=m["rinst"],
+                dis("whether the reader object keeps a reference into the returned set", detail="reader-keeps-reference", model=m["rinst"],
                     impl=o["rinst"])
         elif k == "write":
             kind = op["kind"]
@@ -324,16 +320,16 @@ def compare(history, obs, steps, pristine):
                 dis("model: a write changed a pre-existing location", model=m["changed_below"])
             real_err = o["err"] or 0
             if kind in MODELLED_ERR and m["err"] != real_err:
-                dis("error exit", model=m["err"], impl=real_err, exc=o.get("exc"))
+                dis("error exit", detail="error-exit", model=m["err"], impl=real_err, exc=o.get("exc"))
             if kind in COPY_MATTERS:
                 if m["copies"] != o["n_copies"]:
-                    dis("number of deepcopy calls on (copies of) the input", model=m["copies"], impl=o["n_copies"])
+                    dis("number of deepcopy calls on (copies of) the input", detail="copy-count", model=m["copies"], impl=o["n_copies"])
                 mfp = sorted(set(FP_NAMES[x] for x in m["fp"]))
                 rfp = sorted(set(tuple(x) for x in o["copy_fp"]))
                 if o["n_copies"] and mfp != rfp:
-                    dis("slots assigned on the writer's own copy (footprint)", model=mfp, impl=rfp)
+                    dis("slots assigned on the writer's own copy (footprint)", detail="own-copy-footprint", model=mfp, impl=rfp)
             elif o["copy_fp"]:
-                dis("slots assigned on the writer's own copy (footprint)", model=[], impl=o["copy_fp"])
+                dis("slots assigned on the writer's own copy (footprint)", detail="own-copy-footprint", model=[], impl=o["copy_fp"])
             if o["winst_alias"]:
                 cont = [c for c in o["winst_alias"] if c not in GEOMETRY and c != "Layout"]
                 if cont:
@@ -343,13 +339,13 @@ def compare(history, obs, steps, pristine):
                 if tree_in is not None and token_domain(tree_in, kind):
                     n1, n2 = m["tokens"].count(1), m["tokens"].count(2)
                     if (n1, n2) != (o["n_open"], o["n_close"]):
-                        dis("span tags in the output (<span, </span>)", model=[n1, n2], impl=[o["n_open"], o["n_close"]])
+                        dis("span tags in the output (<span, </span>)", detail="span-tags", model=[n1, n2], impl=[o["n_open"], o["n_close"]])
             if kind in SPAN_WRITERS and m["err"] == real_err:
                 tree_in = trees[op["set"]]
                 if tree_in is not None and token_domain(tree_in):
                     ro = o["inst"].get("open_span")
                     if ro is not None and ro != ("b:%s" % m["open"]):
-                        dis("open_span after the call", model=m["open"], impl=ro)
+                        dis("open_span after the call", detail="open-span-after", model=m["open"], impl=ro)
     return out
 
 
@@ -369,7 +365,7 @@ def oracle_records(history, obs, pristine):
         if k == "build":
             recs.append([0, this, 0, 0, 0, digs])
         elif k == "read":
-            pr = pristine[read_key(op)]
+            pr = pristine.get(read_key(op), {"err": 199})
             recs.append([1, this, zdigest(read_key(op)), 0, hexz(pr.get("digest")) if pr.get("err") is None else -1, digs])
         elif k == "write":
             key = zdigest(json.dumps([op["kind"], op.get("wopts", {}), op.get("kw", {})], sort_keys=True))
@@ -379,6 +375,34 @@ def oracle_records(history, obs, pristine):
             recs.append([3, op["set"], 0, 0, 0, digs])
         idx.append(i)
     return recs, idx
+
+
+def concat_records(rec_a, rec_b):
+    """oracle records of history B as if it continued history A (they ran in two separate pristine processes):
+    B's sets are numbered after A's, A's sets stay as they were"""
+    tail = rec_a[-1][5] if rec_a else []
+    n = len(tail)
+    out = [list(r) for r in rec_a]
+    for r in rec_b:
+        out.append([r[0], r[1] + n, r[2], r[3], r[4], list(tail) + list(r[5])])
+    return out
+
+
+def evaluate_pairs(pairs, code):
+    """pairs: [(history A, obs A, history B, obs B)] -> per pair the oracle verdict on A ; B (indices >= len(A records)
+    refer to B)"""
+    reqs, lens, idxs = [], [], []
+    for (ha, oa, hb, ob) in pairs:
+        ra, ia = oracle_records(ha, oa, {})
+        rb, ib = oracle_records(hb, ob, {})
+        reqs.append((code, concat_records(ra, rb)))
+        lens.append(len(ra))
+        idxs.append(ib)
+    resp = oracle_batch(reqs, chunk=500) if reqs else []
+    out = []
+    for r, n, ib in zip(resp, lens, idxs):
+        out.append([(ib[a - n], c) for a, c in r if a >= n])
+    return out
 
 
 def evaluate(histories, results, pristine, code):
@@ -474,9 +498,10 @@ def check_batch(histories, repo, seed_plan, prop, want_ops):
     batch = [model_ops(h, o, pristine) for h, o in zip(histories, results)]
     models = run_model(batch, code_run)
     disagreements = []
+    details = []
     for hi, (h, o, m) in enumerate(zip(histories, results, models)):
         for d in compare(h, o, m, pristine):
-            disagreements.append((hi, d))
+            (details if d.get("detail") else disagreements).append((hi, d))
     verdicts = evaluate(histories, results, pristine, code_ok)
     violations = []
     for hi, v in enumerate(verdicts):
@@ -492,7 +517,25 @@ def check_batch(histories, repo, seed_plan, prop, want_ops):
             violations.append((idxs[x["history"]], x["i"], 7 if prop == "C09" else 8,
                                {"hashseed": seed, "differs": x["what"]}))
     return {"pristine": pristine, "results": results, "models": models, "disagreements": disagreements,
-            "violations": violations, "by_seed": by_seed}
+            "details": details, "violations": violations, "by_seed": by_seed}
+
+
+def detail_summary(histories, details, res):
+    """incidental-detail mismatches between model and implementation: counted in the evidence, never failing"""
+    counts = {}
+    for (hi, d) in details:
+        op = histories[hi][d["i"]]
+        key = "%s:%s" % (d["detail"], op.get("kind") or op.get("fmt") or op["op"])
+        counts[key] = counts.get(key, 0) + 1
+    res["distribution"]["effect_summary_detail_mismatches"] = counts
+    if counts:
+        ex = []
+        for (hi, d) in details[:4]:
+            ex.append({"what": d["what"], "model": d.get("model"), "impl": d.get("impl"),
+                       "op": {k: v for k, v in histories[hi][d["i"]].items() if k in ("op", "kind", "fmt", "wopts", "kw")}})
+        res["notes"].append("effect-summary DETAIL differs from the code on %d operations (not part of the property: "
+                            "what a writer assigns inside its own copy, exception class, span rendering, what a reader "
+                            "object keeps); examples: %s" % (sum(counts.values()), json.dumps(ex)[:1500]))
 
 
 CLAUSES[7] = "write-hashseed-dependent"
